@@ -688,8 +688,27 @@ def output_modes(V, pop, tier):
                             V.violation("rejection message of %s does not reach the user in %s mode: %r [%s]" % (sec, mode, first_line[:150], name),
                                         {"kind": "history", "prop": "C04", "name": name, "history": h, "finding": {"what": "message lost", "mode": mode}},
                                         {"what": "rejection message lost in an output mode", "mode": mode})
-            if msgs and rt["rc"] == 0 and False:
-                pass
+            # CSV-directory mode into a directory that already holds a longer, older report: what is left for each
+            # security must be exactly the rows the library shows (a correct prefix for a rejected one, nothing stale)
+            import csv as _csv
+            od2 = os.path.join(wd, cid + "-out2")
+            common.prefill_output_dir(od2, [inp])
+            rf = common.run_cli("acb", [inp, "-d", od2, "--print-full-values"] + init, home=wd)
+            V.bump("output_mode_runs")
+            for sec, t in list(r["tables"].items()) + [("aggregate-gains", r["agg"])]:
+                pth = os.path.join(od2, sec + ".csv")
+                if not os.path.exists(pth):
+                    continue
+                with open(pth, newline="", errors="replace") as f:
+                    got = list(_csv.reader(f))
+                want = [t["header"]] + t["rows"] + ([t["footer"]] if t["footer"] else [])
+                want += [[n_] + [""] * (len(t["header"]) - 1) for n_ in t["notes"]]
+                if got != want:
+                    V.violation("--csv-output-dir into a reused directory: %s.csv is not the table the library reports (%d lines, expected %d) [%s]"
+                                % (sec, len(got), len(want), name),
+                                {"kind": "history", "prop": "C04", "name": name, "history": h, "finding": {"what": "csv file differs", "sec": sec}},
+                                {"what": "csv output differs from the reported table"})
+                    break
     finally:
         common.cleanup(wd)
 
